@@ -104,11 +104,11 @@ def arithOp {F : Type} [FloatLike F] [Widen F Float] (args : List String) : Opti
       -- two partial states (the first third and the rest) merged with `+`
       let merged : Arith F := (Arith.fromList (xs.take (xs.length / 3))).merge (Arith.fromList (xs.drop (xs.length / 3)))
       let oMerged := tokOutcome (tokInterval tol) (merged.ciMean (W := Float) crit conf)
-      let model := joinBar [o, o, o, o, o, o, oMerged, statsToks a]
+      let model := joinBar [o, o, o, o, o, o, oMerged, o, oMerged, statsToks a]
       let c := match needs with
         | r :: _ => crit r
         | [] => 0.0 / 0.0
-      let (cs, sk) := oracleMeanCI (F := F) conf (xs.map FloatLike.toF64) c (impl.take 7)
+      let (cs, sk) := oracleMeanCI (F := F) conf (xs.map FloatLike.toF64) c (impl.take 9)
       { model := model, prop := cs, skipped := sk } }
 
 /-! ### geometric / harmonic -/
@@ -380,20 +380,21 @@ def pairedOp {F : Type} [FloatLike F] [Widen F Float] (args : List String) : Opt
             | _ => [.s "?"]
           let ar : Outcome (Err Float) (Interval F) := Arith.ci crit conf diffs
           joinBar [o, o, tokOutcome (tokInterval tol) o3, tokOutcome (tokInterval tol) o4, stT,
-                   tokOutcome (tokInterval tol) ar]
-        else joinBar [o, o, skipT, skipT, skipT, skipT]
+                   tokOutcome (tokInterval tol) ar, o]
+        else joinBar [o, o, skipT, skipT, skipT, skipT, o]
       -- oracle: paired = arithmetic-mean interval of the differences, exactly, in every feeding
       -- style; unequal lengths are rejected with both lengths
       let cs :=
         if same then
           match impl with
-          | [a, b, c, d, _, ar] =>
-            (if a == ar && b == ar && c == ar && d == ar then [] else ["paired≠arith(differences)"])
+          | [a, b, c, d, _, ar, sp] =>
+            (if a == ar && b == ar && c == ar && d == ar then [] else ["paired≠arith(differences)"]) ++
+            (if sp == a then [] else ["series-with-gaps-differ"])
           | _ => ["malformed"]
         else
           let want := ["err", "DifferentSampleSizes", toString xs.length, toString ys.length]
           match impl with
-          | a :: b :: _ => if a == want && b == want then [] else ["length-mismatch-not-reported"]
+          | [a, b, _, _, _, _, sp] => if a == want && b == want && sp == want then [] else ["length-mismatch-not-reported"]
           | _ => ["malformed"]
       { model := model, prop := cs } }
 
@@ -452,7 +453,7 @@ def oracleUnpaired {F : Type} [FloatLike F] (conf : Confidence Float) (xs ys : L
       let slack := 64.0 * u * (absF nu + 2.0) + 1e-9
       if nuMin - slack ≤ dofModel && dofModel ≤ nuMax + slack then []
       else [s!"dof-off(model {dofModel} exact {nu} admissible [{nuMin}, {nuMax}])"]
-    let cs := (impl.take 6).foldl (fun (acc : List String × Nat) g =>
+    let cs := (impl.take 7).foldl (fun (acc : List String × Nat) g =>
       let (cs, idx) := acc
       let bad (m : String) := (cs ++ [s!"style{idx}:{m}"], idx + 1)
       match pImplInterval (F := F) g with
@@ -499,10 +500,10 @@ def unpairedOp {F : Type} [FloatLike F] [Widen F Float] (args : List String) : O
       let (cs, sk) := oracleUnpaired (F := F) conf (xs.map FloatLike.toF64) (ys.map FloatLike.toF64) c dof impl
       -- exchanging the samples negates and mirrors the interval, exactly
       let csw := match impl with
-        | a :: _ :: _ :: _ :: _ :: _ :: [s] =>
+        | a :: _ :: _ :: _ :: _ :: _ :: _ :: [s] =>
           if (toksEq 0 (mirrorToks a) s).1 then [] else ["swap-does-not-mirror"]
         | _ => ["malformed"]
-      { model := joinBar [o, o, o, o, o, o, tokOutcome (tokInterval tol) sw], prop := cs ++ csw, skipped := sk } }
+      { model := joinBar [o, o, o, o, o, o, o, tokOutcome (tokInterval tol) sw], prop := cs ++ csw, skipped := sk } }
 
 /-- `paired_seq F preA preB xs ys => extend outcome | count` on a state that already holds pairs -/
 def pairedSeqOp {F : Type} [FloatLike F] [Widen F Float] (args : List String) : Option OpEval := do
